@@ -32,7 +32,15 @@ class _Stub:
     pass
 
 
-def make_server_stub(kind, context, cfg):
+def make_server_stub(kind, context, cfg, cls=None):
+    """The server object the threaded handlers consult.  With `cls` (ModbusTcpServer / ModbusUdpServer / ModbusSerialServer) the REAL
+    server class is constructed - with the socket binding and the serial port patched out - so that what its constructor does with
+    `ignore_missing_slaves`, `broadcast_enable`, `framer` and the context reaches the handlers as in a real server.  If that is not
+    possible (a constructor that insists on real I/O), a plain attribute holder with the documented attributes is used."""
+    if cls is not None:
+        srv = _construct_real(cls, kind, context, cfg)
+        if srv is not None:
+            return srv
     srv = _Stub()
     srv.context = context
     srv.framer = FRAMERS[kind]
@@ -43,6 +51,57 @@ def make_server_stub(kind, context, cfg):
     srv.active_connections = {}
     srv.control = ModbusControlBlock()
     return srv
+
+
+def _construct_real(cls, kind, context, cfg):
+    import socketserver as _ss
+    import serial as _serial
+
+    class _NoPort:
+        def __init__(self, *a, **k):
+            self.is_open = True
+
+        def close(self):
+            pass
+
+        def read(self, n=1):
+            return b""
+
+        def write(self, data):
+            return len(data)
+    saved = [(_ss.TCPServer, "server_bind", _ss.TCPServer.server_bind), (_ss.TCPServer, "server_activate", _ss.TCPServer.server_activate),
+             (_ss.UDPServer, "server_bind", _ss.UDPServer.server_bind), (_ss.UDPServer, "server_activate", _ss.UDPServer.server_activate),
+             (_serial, "Serial", _serial.Serial)]
+    try:
+        _ss.TCPServer.server_bind = lambda self: None
+        _ss.TCPServer.server_activate = lambda self: None
+        _ss.UDPServer.server_bind = lambda self: None
+        _ss.UDPServer.server_activate = lambda self: None
+        _serial.Serial = _NoPort
+        kw = {"framer": FRAMERS[kind], "ignore_missing_slaves": bool(cfg["ignore"]), "broadcast_enable": bool(cfg["broadcast"])}
+        if cls is S.ModbusSerialServer:
+            kw.update(port="/dev/null", timeout=0.01)
+        else:
+            kw.update(address=("127.0.0.1", 0))
+        try:
+            srv = cls(context, **kw)
+        except Exception:
+            return None
+        try:
+            sock = getattr(srv, "socket", None)
+            if sock is not None and hasattr(sock, "close") and not isinstance(sock, _NoPort):
+                sock.close()
+        except Exception:
+            pass
+        for attr in ("context", "framer", "decoder", "ignore_missing_slaves", "broadcast_enable"):
+            if not hasattr(srv, attr):
+                return None
+        if not hasattr(srv, "threads"):
+            srv.threads = []
+        return srv
+    finally:
+        for obj, name, val in saved:
+            setattr(obj, name, val)
 
 
 class _Base:
@@ -201,7 +260,7 @@ class SyncTcp(_Base):
 
     def __init__(self, kind, context, cfg):
         super().__init__(kind, context, cfg)
-        self.srv = make_server_stub(kind, context, cfg)
+        self.srv = make_server_stub(kind, context, cfg, S.ModbusTcpServer)
         self.h = {}
 
     def open(self):
@@ -261,7 +320,7 @@ class SyncSerial(_Base):
     def __init__(self, kind, context, cfg):
         import threading
         super().__init__(kind, context, cfg)
-        self.srv = make_server_stub(kind, context, cfg)
+        self.srv = make_server_stub(kind, context, cfg, S.ModbusSerialServer)
         self.sock = _LoopSock(self, 1)
         self.h = S.CustomSingleRequestHandler(self.sock, ("dev", "dev"), self.srv)
         sock, h = self.sock, self.h
@@ -318,7 +377,7 @@ class SyncUdp(_Base):
 
     def __init__(self, kind, context, cfg):
         super().__init__(kind, context, cfg)
-        self.srv = make_server_stub(kind, context, cfg)
+        self.srv = make_server_stub(kind, context, cfg, S.ModbusUdpServer)
 
     def feed(self, conn, data):
         self.writes = []
